@@ -25,7 +25,7 @@ TITLE = "Walkers evolve independently; batching and storage format change nothin
 MENU = {"quick": 32, "thorough": 128}
 TIERS = {
     "quick": dict(runs=32 * 12, budget_s=170, recheck=2, shrink_s=60.0, run_timeout_s=900),
-    "thorough": dict(runs=128 * 120, budget_s=2400, recheck=6, shrink_s=180.0, run_timeout_s=1800),
+    "thorough": dict(runs=128 * 120, budget_s=1200, recheck=6, shrink_s=180.0, run_timeout_s=1800),
 }
 RULE = (
     "run i uses compiled-menu entry i mod M (electron count, Cholesky count, walkers, dt, batch counts, kind: step machine / sampler / "
@@ -98,6 +98,10 @@ def gen_cfg(seed, index, tier):
 
 def group_of(cfg):
     return f"m{cfg['menu']:03d}"
+
+
+def group_of_index(seed, index, tier):
+    return f"m{index % MENU[tier]:03d}"
 
 
 def _spec(cfg, wt, n_batch=None):
